@@ -265,6 +265,25 @@ def guarded(cfg, node, pattern, truth=True):
     return True
 
 
+def guard_match(cfg, node, pattern, truth=True):
+    """Bindings of every dominating atom with the given truth value that
+    matches `pattern` (a single atom pattern)."""
+    from mstatic.pattern import match, P as _P
+    pat = _P(pattern) if isinstance(pattern, str) else pattern
+    out = []
+    for a, at in guard_atoms(cfg, node):
+        if at == truth:
+            b = match(pat, a)
+            if b is not None:
+                out.append(b)
+    return out
+
+
+def nodes_where(cfg, pattern, truth=True):
+    """CFG nodes dominated by the fact pattern == truth."""
+    return [n for n in cfg.nodes if guarded(cfg, n, pattern, truth)]
+
+
 def gfacts(cfg, node):
     """[(normalised text of atom, truth)] for the facts dominating node."""
     return [(norm(a), t) for a, t in guard_atoms(cfg, node)]
